@@ -23,9 +23,9 @@ PBT = "property-based testing (proptest): "
 def sim(id, text, technique, note=""):
     add(id, "dverif", "exploration", SIM + text, SIMNOTE + (" " + note if note else ""), PBT + technique)
 
-sim("C01", "oracle Leaders(T) <= 1 over the whole multi-incarnation message history (AppendEntries sent as leader, leader notifications). Exploration of thousands of partition/crash/restart schedules per run is the level a history property over real code admits; absence is not established.",
+sim("C01", "oracle Leaders(T) <= 1 over the whole multi-incarnation message history (AppendEntries sent as leader, leader notifications). 3-, 4- and 5-voter clusters. Exploration of thousands of partition/crash/restart schedules per run is the level a history property over real code admits; absence is not established.",
     "stateful scenario generation, history invariant (at most one leader per term)")
-sim("C02", "oracle: per (node, term) at most one candidate voted for and no term regression across process-crash / power-loss / graceful restarts at arbitrary instants.",
+sim("C02", "oracle: per (node, term) at most one candidate voted for and no term regression across process crashes (at any task switch of the node) and graceful restarts; the simulated MetaStore is durable on return as its contract states. Crash points inside one synchronous handler block (reply sent before persist) are out of reach (DESIGN 10.9).",
     "stateful scenario generation with crash injection, history invariant over votes/terms across incarnations")
 sim("C03", "oracle: a node acting as leader of term T while its own voter view has >1 members must have received granted votes from a majority of that view before; clusters bootstrapped with 1 node and expanded by join+promotion.",
     "stateful scenario generation (membership + elections), history invariant (votes received before leading)")
@@ -33,9 +33,9 @@ sim("C04", "oracle evaluated at every checkpoint on the real logs of all nodes: 
     "stateful scenario generation, pairwise log-matching invariant on real node logs")
 sim("C05", "oracle: the committed sequence (first commit of each index by any leader) is never contradicted — no second value committed at an index, no node that held a committed entry overwrites or drops it, every later-term leader holds it.",
     "stateful scenario generation with crashes, committed-sequence reference model")
-sim("C06", "oracle over the state machines' apply logs: per incarnation indexes are applied in order without gap or repetition, the command applied at index i is the committed one on every node, and each node's state equals the reference model folded over its applied prefix.",
+sim("C06", "oracle over the state machines' apply logs: per incarnation indexes are applied in order without gap or repetition, the command applied at index i is the committed one on every node, and each node's state equals the reference model folded over its applied prefix; the apply stream includes membership entries (learner joins, promotions, failing config changes on restarted nodes).",
     "stateful scenario generation, differential against a reference state machine model")
-sim("C09", "oracle: at every commit-index advance of a leader, a majority of the CURRENT voter set (per the leader's membership at that instant, old/new set tolerated around config entries) durably holds the entry, and the entry at the new commit index is of the leader's term.",
+sim("C09", "oracle: at every commit-index advance of a leader, a majority of the CURRENT voter set (per the leader's membership at that instant, old/new set tolerated around config entries) holds the entry, and the entry at the new commit index is of the leader's term; clusters of 1/3/5 voters that grow by learner joins and promotions.",
     "stateful scenario generation, quorum-counting oracle over recorded logs and acknowledgements")
 sim("C10", "oracle: per-key Wing-Gong linearizability search over acknowledged writes (required), indeterminate writes (optional) and linearizable reads including final reads after heal + restart; slow disks (acknowledged entries memory-only for a while), simultaneous graceful shutdown of the whole cluster. Auxiliary engine (evidence C10.close.json): one real BufferedRaftLog over the simulated disk, generated append/yield/latency sequences followed by close(): every accepted entry must be in the store after the graceful close.",
     "stateful scenario generation, linearizability checker (per-key Wing-Gong search) as oracle")
